@@ -235,6 +235,10 @@ func cloneClientHelloSpec(chs *tls.ClientHelloSpec) *tls.ClientHelloSpec {
 			c.Extensions[i] = &tls.KeyShareExtension{KeyShares: slices.Clone(ext.KeyShares)}
 		case *tls.QUICTransportParametersExtension:
 			c.Extensions[i] = &tls.QUICTransportParametersExtension{TransportParameters: slices.Clone(ext.TransportParameters)}
+		case *tls.SNIExtension:
+			// uTLS fills an empty ServerName in from the dial's tls.Config and leaves a non-empty
+			// one alone: on a shared extension every later dial would name the first dial's host.
+			c.Extensions[i] = &tls.SNIExtension{ServerName: ext.ServerName}
 		default:
 			c.Extensions[i] = ext
 		}
